@@ -20,7 +20,7 @@ func init() {
 			"(atomic-transfer) the transfer's writes share one store transaction — violated by design, recorded known finding; " +
 			"(single-write) each driver's AddNodeBalance writes exactly one of {account balance, trial balance} on success paths and none on failure paths, value = stored + credit; " +
 			"(migrate) each driver's AddAccountNode adds the trial credit read in the same region to the account balance and deletes the trial entry on the same paths; " +
-			"(stats-cover) each driver's Stats counts both balance spaces. Round 2: the credit to migrate is read from a key in the trial space only.",
+			"(stats-cover) each driver's Stats counts both balance spaces. Round 2: the credit to migrate is read from a key in the trial space only. Round 5: (bigint-private) in-place big.Int methods only on owned values, no aliasing *big.Int results; (key-spelling) ids in badger key formats are spelled as themselves; (one-txn:retry-closure) functions handed to retrying wrappers keep nothing from a failed attempt.",
 		NotDecided: []string{"not decided: arithmetic value of the sums; optimistic-transaction conflicts at run time (only their structural consequence); wallet-sharing effects"},
 	}
 }
